@@ -1,0 +1,22 @@
+//go:build verif
+
+package comet
+
+import "sync/atomic"
+
+var verifHandler atomic.Value // of func(name string, args ...uint64)
+
+// VerifSetHandler installs (or, with nil, removes) the handler called at every verifPoint.
+func VerifSetHandler(h func(name string, args ...uint64)) {
+	if h == nil {
+		verifHandler.Store((func(string, ...uint64))(nil))
+		return
+	}
+	verifHandler.Store(h)
+}
+
+func verifPoint(name string, args ...uint64) {
+	if h, ok := verifHandler.Load().(func(string, ...uint64)); ok && h != nil {
+		h(name, args...)
+	}
+}
